@@ -12,6 +12,17 @@ pub open spec fn ds_get(ds: DS, db: int, k: Seq<u8>) -> Option<DV> { if ds.conta
 pub enum RV { Int(int), Bulk(Option<Seq<u8>>), Okay, Arr(Seq<Seq<u8>>), ArrSet(Set<Vec<u8>>), WrongType, OtherErr }
 
 // ---- strings
+/// INCRBY / DECRBY / INCR / DECR: absent counts as 0; the stored text must be a decimal i64; the sum must fit
+pub open spec fn spec_incrby(ds: DS, db: int, k: Seq<u8>, inc: i64) -> (RV, DS) {
+    match ds_get(ds, db, k) {
+        None => (RV::Int(inc as int), ds.insert((db, k), DV::Str(i64_str(inc)))),
+        Some(DV::Str(b)) => match spec_parse_i64(b) {
+            None => (RV::OtherErr, ds),
+            Some(cur) => if i64::MIN <= cur + inc <= i64::MAX { (RV::Int(cur + inc), ds.insert((db, k), DV::Str(i64_str((cur + inc) as i64)))) } else { (RV::OtherErr, ds) },
+        },
+        Some(_) => (RV::WrongType, ds),
+    }
+}
 pub open spec fn spec_append(ds: DS, db: int, k: Seq<u8>, v: Seq<u8>) -> (RV, DS) {
     match ds_get(ds, db, k) {
         None => (RV::Int(v.len() as int), ds.insert((db, k), DV::Str(v))),
